@@ -193,6 +193,10 @@ macro_rules! impls {
 
 def run(cfg, named):
     """named: [(name, item)] (items from gen()). Returns a report like bharness.run_b."""
+    return bharness.attach(run_(cfg, named), named, 'P')
+
+
+def run_(cfg, named):
     d = os.path.join(runner.WORK, 'probe-' + cfg)
     os.makedirs(os.path.join(d, 'src'), exist_ok=True)
     with open(os.path.join(d, 'Cargo.toml'), 'w') as f:
